@@ -54,3 +54,53 @@ Theorem C12_roundtrip : forall cb s, Spec.C12.wf_store s ->
   okb = true /\ finish [] l true = s.
 Proof. exact Tofu_proofs.roundtrip. Qed.
 Print Assumptions C12_roundtrip.
+
+(* ---- tie to the code (security/tofu.py, client/session.py): the statements of coq/Equiv/EquivTofu.v, re-checked here against the definitions regenerated
+   from /repo's working tree (coq/Gen); see DESIGN.md 11.8 ---- *)
+From Coq Require Import List NArith ZArith Bool.
+From NV Require Import Prelude.Str Prelude.Res Model.Tofu Equiv.TofuGlue Gen.TofuGen.
+From NV Require Equiv.EquivTofu.
+Theorem C12_code_trust_tie : forall s h p fp now, gen_trust s h p fp now = (trust_stmts s h p fp now, Ok tt).
+Proof. exact EquivTofu.trust_tie. Qed.
+Print Assumptions C12_code_trust_tie.
+
+Theorem C12_code_verify_tie : forall s h p fp now,
+  gen_verify s h p fp now = (snd (verify s h p fp), Ok (verdict_py (fst (verify s h p fp)))).
+Proof. exact EquivTofu.verify_tie. Qed.
+Print Assumptions C12_code_verify_tie.
+
+Theorem C12_code_revoke_tie : forall s h p,
+  gen_revoke s h p = ([SDelete h p; SCommit], Ok (match lookup s h p with Some _ => true | None => false end)).
+Proof. exact EquivTofu.revoke_tie. Qed.
+Print Assumptions C12_code_revoke_tie.
+
+Theorem C12_code_revoke_by_hostname_tie : forall s h,
+  gen_revoke_by_hostname s h = ([SDeleteHost h; SCommit], Ok (length (filter (fun r => eqb h (r_host r)) s))).
+Proof. exact EquivTofu.revoke_by_hostname_tie. Qed.
+Print Assumptions C12_code_revoke_by_hostname_tie.
+
+Theorem C12_code_clear_tie : forall s, gen_clear s = ([SDeleteAll; SCommit], Ok (length s)).
+Proof. exact EquivTofu.clear_tie. Qed.
+Print Assumptions C12_code_clear_tie.
+
+Theorem C12_code_validate_fingerprint_tie : forall fp, gen_validate_fingerprint fp = fp_valid fp.
+Proof. exact EquivTofu.validate_fingerprint_tie. Qed.
+Print Assumptions C12_code_validate_fingerprint_tie.
+
+Theorem C12_code_import_toml_code_tie : forall cb s merge es now,
+  obs (gen_import_toml gen_validate_fingerprint s merge cb es now) = import_stmts cb s merge (to_entries es).
+Proof. exact EquivTofu.import_toml_code_tie. Qed.
+Print Assumptions C12_code_import_toml_code_tie.
+
+Theorem C12_code_get_single_tofu_tie : forall s h p c now,
+  gen_get_single_tofu (fun s h p c => gen_verify s h p c now) gen_get_host_info (fun s h p c => gen_trust s h p c now) s h p c
+  = (fst (tofu_check s h p (presented_of c) now), outcome_of h p (snd (tofu_check s h p (presented_of c) now))).
+Proof. exact EquivTofu.get_single_tofu_tie. Qed.
+Print Assumptions C12_code_get_single_tofu_tie.
+
+Theorem C12_code_upload_tofu_tie : forall s h p c now,
+  gen_upload_tofu (fun s h p c => gen_verify s h p c now) gen_get_host_info (fun s h p c => gen_trust s h p c now) s h p c
+  = (fst (tofu_check s h p (presented_of c) now), outcome_of h p (snd (tofu_check s h p (presented_of c) now))).
+Proof. exact EquivTofu.upload_tofu_tie. Qed.
+Print Assumptions C12_code_upload_tofu_tie.
+
